@@ -389,106 +389,6 @@ def register(R: Registry):
           notes="the number of child results is fixed per variant (0, 1, 2, 3); chain lengths and the numbers of already closed branches are symbolic",
           options=dict(OPTS))
 
-    # ================================================================ get_branches: the post-traversal step
-    # "each branch starts at the root or a furcation": the fold hands back the pending chain that ends at the root; if it
-    # has more than one node (the root is not a furcation: stems, unbranched chains) it must be closed as a branch that starts
-    # at the root; every branch closed during the traversal is kept exactly once.  The traversal is abstracted: it returns an
-    # ARBITRARY pair (run of closed branches, pending chain) — `Tree.traverse` is not a carrier of this contract.
-    def gb_setup(S):
-        t = sym_tree(S, "t", frozen=True)
-        cell = {}
-
-        def traverse_model(eng, args, kwargs):
-            eng.assumptions.add("abstraction: Tree.traverse(leave=collect_branches) returns an arbitrary (closed branches, pending chain) pair (the fold itself is checked by the bounded stand-in)")
-            if args or set(kwargs) != {"leave"}:
-                raise X.Unsupported("get_branches calls traverse in an unexpected form")
-            br = PList([X.SymSeg("closed")])
-            ch = S.plist("int", name="pending")
-            cell["ret"] = (br, ch, ch.cols[0], ch.n)
-            cell["calls"] = cell.get("calls", 0) + 1
-            return (br, ch)
-
-        t.fields["traverse"] = S.callback("Tree.traverse", traverse_model)
-        return dict(self=t, __ghost__=dict(cell=cell))
-
-    def gb_post(which):
-        def f(E, v, o):
-            cell = E.spec_extra["cell"]
-            res, t = v["result"], v["self"]
-            if cell.get("calls") != 1 or not isinstance(res, PList) or res.items is None:
-                return False
-            br, ch, c0, n0 = cell["ret"]
-            chain0 = PList()
-            chain0.items, chain0.cols, chain0.kinds, chain0.n, chain0.tup = None, [c0], ["int"], n0, False
-            closing = [x for x in res.items if not isinstance(x, X.SymSeg)]
-            runs = [x for x in res.items if isinstance(x, X.SymSeg)]
-            if which == "every-branch-of-the-traversal-kept-once":
-                return len(runs) == 1 and runs[0].tag == "closed"
-            if which == "pending-chain-of-more-than-one-node-closed-root-first":
-                long = zint(n0) > 1
-                if len(closing) == 0:
-                    return z3.Not(long)
-                if len(closing) != 1 or not is_branch_on(closing[0], t):
-                    return False
-                # chain0 = [.., child-of-root, root] (the root was appended last): the branch lists it in reverse, root first
-                b = closing[0]
-                idx, L, i = b.fields["idx"], zint(n0), z3.Int(fresh_name("i"))
-                return z3.And(long, idx.nz() == L, z3.ForAll([i], z3.Implies(z3.And(0 <= i, i < L), z3.Select(idx.arr, i) == z3.Select(c0, L - 1 - i))))
-            if which == "order":  # helper clause (from the code): [closing branch] + closed branches reversed, or the list as returned
-                if len(closing) == 1:
-                    return len(res.items) == 2 and res.items[0] is closing[0] and same_run(res.items[1], "closed", True)
-                return len(res.items) == 1 and same_run(res.items[0], "closed", False)
-
-        return f
-
-    R.add(f"{TREE}:Tree.get_branches", prop="C08",
-          setup=gb_setup,
-          ensures=[(w, gb_post(w)) for w in ("pending-chain-of-more-than-one-node-closed-root-first", "every-branch-of-the-traversal-kept-once")]
-          + [("result-order-closing-branch-first-then-closed-branches-reversed", gb_post("order"))],
-          notes="post-traversal step only; the traversal is replaced by an arbitrary result (assumption listed)",
-          options=dict(OPTS))
-
-    # ================================================================ get_furcations: the output step
-    # the traversal is abstracted (it may record ANY sequence of ids through the callback's list); the method must hand back
-    # one handle per recorded id, in order, on this tree, addressed by the recorded id.
-    def gf_setup(S):
-        t = sym_tree(S, "t", frozen=True)
-        cell = {}
-
-        def traverse_model(eng, args, kwargs):
-            eng.assumptions.add("abstraction: Tree.traverse(leave=collect_furcations) appends an arbitrary sequence of ids to the callback's list")
-            leave = kwargs.get("leave")
-            if args or set(kwargs) != {"leave"} or not hasattr(leave, "frame"):
-                raise X.Unsupported("get_furcations calls traverse in an unexpected form")
-            fl = leave.frame.lookup("furcations")
-            if not (isinstance(fl, PList) and fl.items == []):
-                raise X.Unsupported("the callback's list is not empty before the traversal")
-            fl.name = "recorded"
-            fl.promote("int")
-            eng.assume(fl.n >= 0)
-            cell["rec"] = (fl, fl.cols[0], fl.n)
-            cell["calls"] = cell.get("calls", 0) + 1
-            return None
-
-        t.fields["traverse"] = S.callback("Tree.traverse", traverse_model)
-        return dict(self=t, __ghost__=dict(cell=cell))
-
-    def gf_post(E, v, o):
-        cell = E.spec_extra["cell"]
-        res = _handles(v)
-        t = v["self"]
-        if cell.get("calls") != 1 or res is None or res.fixed.get("attach") is not t:
-            return False
-        fl, c0, n0 = cell["rec"]
-        k = z3.Int(fresh_name("k"))
-        return z3.And(zint(res.n) == zint(n0), z3.ForAll([k], z3.Implies(z3.And(0 <= k, k < zint(n0)), z3.Select(res.col("idx"), k) == z3.Select(c0, k))))
-
-    R.add(f"{TREE}:Tree.get_furcations", prop="C08",
-          setup=gf_setup,
-          ensures=[("one-handle-per-recorded-furcation-id-in-order", gf_post)],
-          notes="output step only; the traversal is replaced by an arbitrary recording (assumption listed)",
-          options=dict(OPTS))
-
     # ================================================================ Tree.Node.branch on fixed small shapes
     # For a pass-through node or a tip x the result must be THE branch that contains the edge into x (for a one-child root:
     # the branch it starts): it contains x, starts at the root or a furcation, ends at a furcation or a tip, has only
@@ -548,3 +448,916 @@ def register(R: Registry):
           ensures=[("the-branch-through-the-node-root-or-furcation-to-furcation-or-tip-pass-through-inside", nb_post)],
           notes="fixed concrete topologies (4 shapes, every non-furcation node); the is_furcation / is_tip / parent / children calls are inlined from the current source",
           options=dict(OPTS))
+
+
+# ===========================================================================================================================
+# whole-function contracts through the traverse client rule (pyvc/traverse_rule.py): trees of ANY size
+_reg8 = register
+I_, B_ = z3.IntSort(), z3.BoolSort()
+sel = z3.Select
+
+
+class Ghost8:
+    """marker class of ghost-state objects of this module"""
+
+
+def wf_tree8(S, name="t"):
+    """a well-formed input tree (ids = positions, node 0 the root, parents exist, depth witness); frozen: any store into it
+    is a failed frame obligation"""
+    from contracts.C04 import depth
+
+    t = sym_tree(S, name, frozen=True)
+    n = nof(t)
+    i = z3.Int(fresh_name("i"))
+    idc, pid = col(t, "id").arr, col(t, "pid").arr
+    S.assume(z3.ForAll([i], z3.Implies(z3.And(i >= 0, i < n), sel(idc, i) == i)))
+    S.assume(sel(pid, 0) == -1)
+    S.assume(z3.ForAll([i], z3.Implies(z3.And(i > 0, i < n), z3.And(sel(pid, i) >= 0, sel(pid, i) < n))))
+    S.assume(depth(0) == 0)
+    S.assume(z3.ForAll([i], z3.Implies(z3.And(i > 0, i < n), z3.And(depth(i) == depth(sel(pid, i)) + 1, depth(i) > 0))))
+    return t
+
+
+def list_view8(L):
+    """(z3 array, z3 length) of an int list, concrete or symbolic"""
+    if L.items is None:
+        return L.cols[0], zint(L.n)
+    a = z3.K(I_, z3.IntVal(0))
+    for k, x in enumerate(L.items):
+        a = z3.Store(a, k, to_z3(x, "int"))
+    return a, z3.IntVal(len(L.items))
+
+
+def register_whole(R):
+    from pyvc.traverse_rule import Rule
+
+    # ================================================================ Tree.get_furcations as a whole
+    # property: "furcations [are] exactly the nodes with two or more children" (each once).  Traversal invariant: the
+    # callback's list holds exactly the nodes LEFT so far that have more than one child, each once (ghost inverse `at`).
+    def gfw_setup(S):
+        t = wf_tree8(S)
+        G = Obj(Ghost8, dict(at=SArr(z3.K(I_, z3.IntVal(-1)), nof(t), "int", name="at")))
+        return dict(self=t, __ghost__=dict(G8=G))
+
+    def gfw_J(E, v, ENT, LEFT, ctx):
+        A, ln = list_view8(v["furcations"])
+        at = E.spec_extra["G8"].fields["at"].arr
+        a, x = z3.Int(fresh_name("a")), z3.Int(fresh_name("x"))
+        inl = lambda t: z3.And(t >= 0, t < ln)
+        return z3.And(ln >= 0,
+                      z3.ForAll([a], z3.Implies(inl(a), z3.And(sel(LEFT, sel(A, a)), ctx.nkids(sel(A, a)) > 1, sel(at, sel(A, a)) == a))),
+                      z3.ForAll([x], z3.Implies(z3.And(sel(LEFT, x), ctx.nkids(x) > 1), z3.And(inl(sel(at, x)), sel(A, sel(at, x)) == x))))
+
+    def gfw_ghost_leave(E, v, x, ctx):
+        A, ln = list_view8(v["furcations"])
+        G = E.spec_extra["G8"]
+        G.fields["at"].arr = z3.If(ctx.nkids(x) > 1, z3.Store(G.fields["at"].arr, x, ln - 1), G.fields["at"].arr)
+
+    def two_rows(t, x):
+        a, b = z3.Ints(fresh_name("a") + " " + fresh_name("b"))
+        P, n = col(t, "pid").arr, nof(t)
+        return z3.Exists([a, b], z3.And(0 <= a, a < b, b < n, sel(P, a) == x, sel(P, b) == x))
+
+    def gfw_post(which):
+        def f(E, v, o):
+            from swcgeom.core.tree import Tree
+
+            t, res = o["self"], v["result"]
+            if not (isinstance(res, X.ObjList) and res.cls_ is Tree.Node and res.vnames == ["idx"]):
+                return False
+            if which == "handles-on-this-tree":
+                return res.fixed.get("attach") is v["self"] and res.fixed.get("names") is t.fields["names"]
+            n, m, idx = nof(t), zint(res.n), res.col("idx")
+            k, k2, x = z3.Int(fresh_name("k")), z3.Int(fresh_name("k2")), z3.Int(fresh_name("x"))
+            ik = sel(idx, k)
+            if which == "every-handle-is-a-node-with-two-or-more-children":
+                return z3.ForAll([k], z3.Implies(z3.And(0 <= k, k < m), z3.And(0 <= ik, ik < n, two_rows(t, ik))))
+            if which == "every-node-with-two-or-more-children-is-listed":
+                return z3.ForAll([x], z3.Implies(z3.And(0 <= x, x < n, two_rows(t, x)), z3.Exists([k], z3.And(0 <= k, k < m, ik == x))))
+            if which == "each-once":
+                return z3.ForAll([k, k2], z3.Implies(z3.And(0 <= k, k < k2, k2 < m), ik != sel(idx, k2)))
+            raise KeyError(which)
+
+        return f
+
+    def gfw_hint(E, vars):
+        """nkids(x) > 1  <=>  two distinct rows name x as parent (from the definition of kid / rank)"""
+        ctx = E.ghost.get("last-traverse-ctx")
+        if ctx is None:  # no traversal happened (the carrier changed shape): no steps, the postconditions stand on their own
+            return
+        t = vars["self"]
+        P, n = col(t, "pid").arr, nof(t)
+        x, a, b = z3.Int(fresh_name("x")), z3.Int(fresh_name("a")), z3.Int(fresh_name("b"))
+        k0, k1 = ctx.kid(x, 0), ctx.kid(x, 1)
+        fn = (E.cur_key or "Tree.get_furcations").split(":")[-1]
+        E.prove(f"{fn}/step/the-first-two-children-are-two-rows-naming-the-node-as-parent",
+                z3.ForAll([x], z3.Implies(z3.And(ctx.R(x), ctx.nkids(x) > 1), z3.And(0 <= k0, k0 < k1, k1 < n, sel(P, k0) == x, sel(P, k1) == x))), "annotation")
+        E.prove(f"{fn}/step/two-rows-naming-the-node-as-parent-are-two-children",
+                z3.ForAll([x, a, b], z3.Implies(z3.And(ctx.R(x), 0 <= a, a < b, b < n, sel(P, a) == x, sel(P, b) == x), ctx.nkids(x) > 1)), "annotation")
+        E.prove(f"{fn}/step/more-than-one-child-iff-two-rows-name-the-node-as-parent",
+                z3.ForAll([x], z3.Implies(ctx.R(x), (ctx.nkids(x) > 1) == two_rows(t, x))), "annotation")
+
+    GFW = ["handles-on-this-tree", "every-handle-is-a-node-with-two-or-more-children", "every-node-with-two-or-more-children-is-listed", "each-once"]
+    R.add(f"{TREE}:Tree.get_furcations", prop="C08", setup=gfw_setup,
+          ensures=[(w, gfw_post(w)) for w in GFW],
+          options=dict(OPTS, traverse_rule=Rule(gfw_J, modifies=[("furcations", "int"), lambda E: E.spec_extra["G8"]], leave_kind="oref", ghost_leave=gfw_ghost_leave),
+                       hints={"post/every-handle-is-a-node-with-two-or-more-children": gfw_hint}),
+          notes="whole function, trees of any size (traverse client rule); the input tree is frozen")
+
+    # ---------------------------------------------------------------- Tree.get_bifurcations: the deprecated alias, same contract (get_furcations is inlined)
+    R.add(f"{TREE}:Tree.get_bifurcations", prop="C08", setup=gfw_setup,
+          ensures=[(w, gfw_post(w)) for w in GFW],
+          options=dict(OPTS, traverse_rule=Rule(gfw_J, modifies=[("furcations", "int"), lambda E: E.spec_extra["G8"]], leave_kind="oref", ghost_leave=gfw_ghost_leave),
+                       hints={"post/every-handle-is-a-node-with-two-or-more-children": gfw_hint}),
+          notes="thin wrapper of get_furcations (the deprecation warning of the decorator is not modelled)")
+
+    # ================================================================ Tree.get_paths as a whole
+    # property: "There is exactly one root-to-tip path per tip".  Values handed through the traversal: enter -> the root-to-node chain
+    # (an int list, shared by the children: frozen), leave -> the list of the paths of the tips below the node (children in table order).
+    # Ghost vocabulary (immutable functions; each is DEFINED where its value is determined):
+    #   cp8(x, j)   entry j of the chain registered for x    (defined by ghost code right after the real `enter` call of x)
+    #   hn8(x), hl8(x, i), hp8(x, t), hd8(x, i, i2)   history of the leave call of x: number of paths it returned, tip of its i-th path,
+    #                                  position of tip t in it, first position where two of its paths differ
+    #                                  (defined by ghost code right after the real `leave` call of x)
+    from contracts.C04 import depth as d8
+
+    cp8 = z3.Function("cp8", I_, I_, I_)
+    hn8 = z3.Function("hn8", I_, I_)
+    hl8 = z3.Function("hl8", I_, I_, I_)
+    hp8 = z3.Function("hp8", I_, I_, I_)
+    hd8 = z3.Function("hd8", I_, I_, I_, I_)  # hd8(x, i, i2): first position at which the i-th and the i2-th path of x's value differ
+
+    def gp_setup(S):
+        return dict(self=wf_tree8(S))
+
+    def pd_view(d):
+        if d.items is not None:
+            if d.items:
+                raise X.Unsupported("path_dic: concrete non-empty dict")
+            return z3.K(I_, z3.BoolVal(False)), z3.K(I_, z3.K(I_, z3.IntVal(0))), z3.K(I_, z3.IntVal(0))
+        return d.dom, d.val, d.lens
+
+    def gp_ghost_enter(E, v, x, ctx):
+        """definition of the chain function of THE node just entered (x is entered exactly once; nothing speaks about cp8(x, .) before)"""
+        ret = E.ghost["traverse-last-call"]["ret"]
+        if not (isinstance(ret, PList) and not isinstance(ret, X.LList) and (ret.items is not None or ret.kinds == ["int"])):
+            raise X.Unsupported("get_paths: the enter callback returned something that is not an int list")
+        A, ln = list_view8(ret)
+        j = z3.Int(fresh_name("j"))
+        E.assume(z3.ForAll([j], cp8(x, j) == sel(A, j), patterns=[cp8(x, j)]))
+        E.assumptions.add("ghost definition per enter call of get_paths: cp8(x, j) = entry j of the list the callback returned for x")
+
+    def chain_facts(node, dn, P, R_, root, j):
+        """the chain function of `node` (depth dn) describes a root-to-node chain: (per-node facts, per-position facts, per-edge facts)"""
+        return (z3.And(cp8(node, 0) == root, cp8(node, dn) == node),
+                z3.And(R_(cp8(node, j)), d8(cp8(node, j)) == j),
+                sel(P, cp8(node, j)) == cp8(node, j - 1))
+
+    def gp_J(E, v, ENT, LEFT, ctx):
+        dom, val, lens = pd_view(v["path_dic"])
+        P, R_ = ctx.P, ctx.R
+        y, j, t = z3.Int(fresh_name("y")), z3.Int(fresh_name("j")), z3.Int(fresh_name("t"))
+        ent, left = (lambda a: z3.simplify(sel(ENT, a))), (lambda a: z3.simplify(sel(LEFT, a)))  # beta-reduced: no lambda / store terms in the formulas
+        upto = z3.And(0 <= j, j <= d8(y))
+        ends, nodes, edges = chain_facts(y, d8(y), P, R_, ctx.root, j)
+        return [
+            # the registry holds, for every entered node, its root-to-node chain
+            ("every-entered-node-is-registered-with-a-chain-of-its-depth-from-the-root-to-itself",
+             z3.ForAll([y], z3.Implies(ent(y), z3.And(sel(dom, y), sel(lens, y) == d8(y) + 1, ends)))),
+            ("chain-entries-are-nodes-at-the-depth-of-their-position", z3.ForAll([y, j], z3.Implies(z3.And(ent(y), upto), nodes))),
+            ("registered-chain-entries-are-the-chain-entries", z3.ForAll([y, j], z3.Implies(z3.And(ent(y), upto), sel(sel(val, y), j) == cp8(y, j)))),
+            ("consecutive-chain-entries-are-parent-and-child", z3.ForAll([y, j], z3.Implies(z3.And(ent(y), 1 <= j, j <= d8(y)), edges), patterns=[sel(P, cp8(y, j))])),
+            ("a-chain-extends-the-chain-of-the-parent",
+             z3.ForAll([y, j], z3.Implies(z3.And(ent(y), y != ctx.root, 0 <= j, j < d8(y)), cp8(y, j) == cp8(sel(P, y), j)), patterns=[cp8(sel(P, y), j)])),
+            ("a-node-below-a-left-node-is-left", z3.ForAll([y, j], z3.Implies(z3.And(ent(y), upto, left(cp8(y, j))), left(y)))),
+            ("the-value-of-a-left-node-lists-every-entered-tip-below-it",
+             z3.ForAll([y, t], z3.Implies(z3.And(left(y), ent(t), ctx.nkids(t) == 0, d8(t) >= d8(y), cp8(t, d8(y)) == y),
+                                          z3.And(0 <= hp8(y, t), hp8(y, t) < hn8(y), hl8(y, hp8(y, t)) == t))))]
+
+    def gp_Qe(E, v, x, val, ctx):
+        if not (isinstance(val, PList) and not isinstance(val, X.LList) and (val.items is not None or val.kinds == ["int"])):
+            return False
+        A, ln = list_view8(val)
+        j = z3.Int(fresh_name("j"))
+        return z3.And(ln == d8(x) + 1, z3.ForAll([j], z3.Implies(z3.And(0 <= j, j <= d8(x)), sel(A, j) == cp8(x, j))))
+
+    def gp_Ql(E, v, x, val, ctx):
+        vw = X.ll_view(val)
+        if vw is None:
+            return False
+        V, L, n = vw
+        i, j = z3.Int(fresh_name("i")), z3.Int(fresh_name("j"))
+        ti = hl8(x, i)
+        ini = z3.And(0 <= i, i < n)
+        i2 = z3.Int(fresh_name("i2"))
+        ti2, e2 = hl8(x, i2), hd8(x, i, i2)
+        ends, nodes, edges = chain_facts(ti, d8(ti), ctx.P, ctx.R, ctx.root, j)
+        return [
+            ("as-many-paths-as-recorded-at-least-one", z3.And(n == hn8(x), n >= 1)),
+            ("every-path-ends-at-a-tip-below-the-node-each-tip-at-its-position",
+             z3.ForAll([i], z3.Implies(ini, z3.And(ctx.R(ti), ctx.nkids(ti) == 0, sel(L, i) == d8(ti) + 1, d8(ti) >= d8(x), hp8(x, ti) == i, cp8(ti, d8(x)) == x, ends)))),
+            ("every-path-is-the-chain-of-its-tip",
+             z3.ForAll([i, j], z3.Implies(z3.And(ini, 0 <= j, j <= d8(ti)), z3.And(sel(sel(V, i), j) == cp8(ti, j), nodes)))),
+            ("consecutive-entries-of-every-path-are-parent-and-child",
+             z3.ForAll([i, j], z3.Implies(z3.And(ini, 1 <= j, j <= d8(ti)), edges), patterns=[sel(ctx.P, cp8(ti, j))])),
+            ("every-path-extends-the-chain-of-the-node", z3.ForAll([i, j], z3.Implies(z3.And(ini, 0 <= j, j <= d8(x)), cp8(ti, j) == cp8(x, j)))),
+            ("paths-in-order-of-the-first-node-in-which-they-differ",
+             z3.ForAll([i, i2], z3.Implies(z3.And(0 <= i, i < i2, i2 < n), z3.And(d8(x) < e2, e2 <= d8(ti), e2 <= d8(ti2), cp8(ti, e2) < cp8(ti2, e2))))),
+            ("paths-agree-before-the-first-node-in-which-they-differ",
+             z3.ForAll([i, i2, j], z3.Implies(z3.And(0 <= i, i < i2, i2 < n, 0 <= j, j < e2), cp8(ti, j) == cp8(ti2, j))))]
+
+    def gp_ghost_leave(E, v, x, ctx):
+        """definitions of the history functions of THIS leave call (x is left exactly once; nothing else speaks about hn8(x), hl8(x, .), hp8(x, .))"""
+        call = E.ghost["traverse-last-call"]
+        vw = X.ll_view(call["ret"])
+        if vw is None:
+            raise X.Unsupported("get_paths: the leave callback returned something that is not a list of int lists")
+        V, L, n = vw
+        i, t = z3.Int(fresh_name("i")), z3.Int(fresh_name("t"))
+        E.assume(hn8(x) == n)
+        E.assume(z3.ForAll([i], hl8(x, i) == sel(sel(V, i), sel(L, i) - 1), patterns=[hl8(x, i)]))
+        lc = E.ghost.get("last-chain")
+        if lc is not None and lc["src"] is call["args"] and lc["out"].cols[0].eq(V):
+            c = cp8(t, d8(x) + 1)
+            off, seg, K = lc["off"], lc["seg"], lc["K"]
+            E.assume(z3.ForAll([t], hp8(x, t) == off(ctx.rank(c)) + hp8(c, t), patterns=[hp8(x, t)]))
+            a, b = z3.Int(fresh_name("a")), z3.Int(fresh_name("b"))
+            E.assume(z3.ForAll([a, b], hd8(x, a, b) == z3.If(seg(a) == seg(b), hd8(ctx.kid(x, seg(a)), a - off(seg(a)), b - off(seg(a))), d8(x) + 1), patterns=[hd8(x, a, b)]))
+            # proof steps (each its own obligation): where the entries of the concatenation come from
+            ns = call["args"].cols[2]
+            ini = z3.And(0 <= i, i < off(K))
+            k_, i_ = seg(i), i - off(seg(i))
+            kd = ctx.kid(x, k_)
+            st = lambda nm, f: E.prove(f"Tree.get_paths/step/{nm}", f, "annotation")
+            counting = [hn8, seg, off, ctx.kid, ctx.nkids, ns, x, ctx.n]  # the steps about positions need no other vocabulary
+            sv = lambda nm, f: X.prove_in_vocabulary(E, f"Tree.get_paths/step/{nm}", f, counting)
+            sv("a-node-that-is-not-a-tip-has-a-first-child-whose-value-has-a-path", z3.And(K >= 1, sel(ns, 0) == hn8(ctx.kid(x, 0)), sel(ns, 0) >= 1))
+            sv("the-first-child-contributes-a-path", z3.And(off(1) == sel(ns, 0), off(1) <= off(K)))
+            sv("every-position-lies-in-the-segment-of-one-child", z3.ForAll([i], z3.Implies(ini, z3.And(0 <= k_, k_ < K, 0 <= i_, i_ < sel(ns, k_), sel(ns, k_) == hn8(kd))), patterns=[seg(i)]))
+            st("the-tip-of-an-entry-is-the-tip-recorded-for-the-child", z3.ForAll([i], z3.Implies(ini, hl8(x, i) == hl8(kd, i_)), patterns=[hl8(x, i)]))
+            st("the-chain-of-an-entry-passes-through-its-child", z3.ForAll([i], z3.Implies(ini, z3.And(d8(kd) == d8(x) + 1, cp8(hl8(x, i), d8(x) + 1) == kd)), patterns=[hl8(x, i)]))
+            j = z3.Int(fresh_name("j"))
+            st("the-chain-of-a-child-extends-the-chain-of-the-node",
+               z3.ForAll([i, j], z3.Implies(z3.And(ini, 0 <= j, j <= d8(x)), z3.And(sel(ctx.P, kd) == x, cp8(kd, j) == cp8(sel(ctx.P, kd), j), cp8(kd, j) == cp8(x, j)))))
+            sv("later-positions-come-from-later-children", z3.ForAll([a, b], z3.Implies(z3.And(0 <= a, a < b, b < off(K)), seg(a) <= seg(b))))
+        else:
+            E.assume(z3.ForAll([t], hp8(x, t) == 0, patterns=[hp8(x, t)]))
+        E.assumptions.add("ghost definitions per leave call of get_paths: hn8(x) = number of returned paths, hl8(x, i) = last entry of the i-th, hp8(x, t) = offset of the child towards t + position of t in that child's value (0 at a tip), hd8(x, i, i2) = that of the common child, else depth of x + 1")
+
+    def no_child(t, x):
+        r = z3.Int(fresh_name("r"))
+        return z3.ForAll([r], z3.Implies(z3.And(0 <= r, r < nof(t)), sel(col(t, "pid").arr, r) != sel(col(t, "id").arr, x)))
+
+    def gp_paths(v, o):
+        from swcgeom.core.tree import Tree
+
+        res = v["result"]
+        if not (isinstance(res, X.ObjList) and res.cls_ is Tree.Path and res.vnames == [] and list(res.avarying) == ["idx"] and res.avarying["idx"][2] == "int"):
+            return None
+        return res
+
+    def gp_post(which):
+        def f(E, v, o):
+            t = o["self"]
+            res = gp_paths(v, o)
+            if res is None:
+                return False
+            E.ghost["gp-result"] = res
+            if which == "paths-attached-to-this-tree":
+                return res.fixed.get("attach") is v["self"] and res.fixed.get("names") is t.fields["names"]
+            IDX, LEN, _ = res.avarying["idx"]
+            P, n, m = col(t, "pid").arr, nof(t), zint(res.n)
+            i, i2, j, x = (z3.Int(fresh_name(a)) for a in ("i", "i2", "j", "x"))
+            ini = z3.And(0 <= i, i < m)
+            at = lambda a, b: sel(sel(IDX, a), b)
+            last = lambda a: at(a, sel(LEN, a) - 1)
+            if which == "every-path-starts-at-the-root":
+                return z3.ForAll([i], z3.Implies(ini, z3.And(sel(LEN, i) >= 1, at(i, 0) == 0)))
+            if which == "consecutive-entries-are-parent-and-child":
+                return z3.ForAll([i, j], z3.Implies(z3.And(ini, 1 <= j, j < sel(LEN, i)), z3.And(0 <= at(i, j), at(i, j) < n, sel(P, at(i, j)) == at(i, j - 1))))
+            if which == "every-path-ends-at-a-childless-node":
+                return z3.ForAll([i], z3.Implies(ini, z3.And(0 <= last(i), last(i) < n, no_child(t, last(i)))))
+            if which == "every-childless-node-ends-a-path":
+                return z3.ForAll([x], z3.Implies(z3.And(0 <= x, x < n, no_child(t, x)), z3.Exists([i], z3.And(ini, last(i) == x))))
+            if which == "paths-ordered-by-the-first-node-in-which-they-differ-children-in-table-order":
+                e = hd8(0, i, i2)
+                return z3.And(z3.ForAll([i, i2], z3.Implies(z3.And(0 <= i, i < i2, i2 < m), z3.And(0 <= e, e < sel(LEN, i), e < sel(LEN, i2), at(i, e) < at(i2, e)))),
+                              z3.ForAll([i, i2, j], z3.Implies(z3.And(0 <= i, i < i2, i2 < m, 0 <= j, j < e), at(i, j) == at(i2, j))))
+            if which == "one-path-per-tip":
+                return z3.ForAll([i, i2], z3.Implies(z3.And(0 <= i, i < i2, i2 < m), last(i) != last(i2)))
+            raise KeyError(which)
+
+        return f
+
+    def gp_post_vocab(E, vars):
+        ctx = E.ghost["last-traverse-ctx"]
+        res = E.ghost["gp-result"]
+        IDX, LEN, _ = res.avarying["idx"]
+        last = lambda a: sel(sel(IDX, a), sel(LEN, a) - 1)
+        st = lambda nm, f: E.prove(f"Tree.get_paths/step/{nm}", f, "annotation")
+        return ctx, vars["self"], zint(res.n), last, st
+
+    def gp_hint(E, vars):
+        ctx, t, m, last, st = gp_post_vocab(E, vars)
+        P, n = col(t, "pid").arr, nof(t)
+        x, r, i = z3.Int(fresh_name("x")), z3.Int(fresh_name("r")), z3.Int(fresh_name("i"))
+        st("no-row-names-a-node-without-children-as-parent", z3.ForAll([x, r], z3.Implies(z3.And(ctx.R(x), ctx.nkids(x) == 0, 0 <= r, r < n), sel(P, r) != x)))
+        st("the-last-entry-of-a-path-is-its-recorded-tip", z3.ForAll([i], z3.Implies(z3.And(0 <= i, i < m), last(i) == hl8(0, i))))
+
+    def gp_hint_complete(E, vars):
+        ctx, t, m, last, st = gp_post_vocab(E, vars)
+        P = col(t, "pid").arr
+        x = z3.Int(fresh_name("x"))
+        st("a-node-with-children-is-named-as-parent-by-its-first-child", z3.ForAll([x], z3.Implies(z3.And(ctx.R(x), ctx.nkids(x) > 0), z3.And(ctx.R(ctx.kid(x, 0)), sel(P, ctx.kid(x, 0)) == x))))
+        st("every-chain-starts-at-the-root", z3.ForAll([x], z3.Implies(ctx.R(x), cp8(x, 0) == 0)))
+        X.prove_in_vocabulary(E, "Tree.get_paths/step/depths-are-not-negative", z3.ForAll([x], z3.Implies(ctx.R(x), d8(x) >= d8(0))), [d8, ctx.P, ctx.n])
+        st("every-tip-has-a-position-whose-path-ends-at-it", z3.ForAll([x], z3.Implies(z3.And(ctx.R(x), ctx.nkids(x) == 0), z3.And(0 <= hp8(0, x), hp8(0, x) < m, last(hp8(0, x)) == x))))
+        st("every-childless-node-has-a-position-whose-path-ends-at-it",
+           z3.ForAll([x], z3.Implies(z3.And(ctx.R(x), no_child(t, x)), z3.And(0 <= hp8(0, x), hp8(0, x) < m, last(hp8(0, x)) == x)), patterns=[sel(col(t, "id").arr, x)]))
+
+    def gp_hint_below(E, vars):
+        """leave step: a node whose chain passes through the node being left, strictly below it, passes through one of its (left) children"""
+        call, ctx = E.ghost["traverse-last-call"], E.ghost["last-traverse-ctx"]
+        x, ENT, LEFT = call["x"], call["ENT"], call["LEFT"]
+        y, j = z3.Int(fresh_name("y")), z3.Int(fresh_name("j"))
+        c = cp8(y, j + 1)
+        E.prove("Tree.get_paths/step/below-the-node-being-left-means-below-one-of-its-children",
+                z3.ForAll([y, j], z3.Implies(z3.And(sel(ENT, y), 0 <= j, j < d8(y), cp8(y, j) == x), z3.And(sel(ctx.P, c) == x, ctx.R(c), sel(LEFT, c)))), "annotation")
+
+    def gp_hint_order(which):
+        def f(E, vars):
+            """leave step, node with children: two entries of the concatenation come from one child (its order) or from two (earlier child first)"""
+            call, lc, ctx = E.ghost["traverse-last-call"], E.ghost.get("last-chain"), E.ghost["last-traverse-ctx"]
+            if lc is None or lc["src"] is not call["args"]:
+                return
+            x = call["x"]
+            off, seg, K = lc["off"], lc["seg"], lc["K"]
+            a, b, j = z3.Int(fresh_name("a")), z3.Int(fresh_name("b")), z3.Int(fresh_name("j"))
+            rng = z3.And(0 <= a, a < b, b < off(K))
+            e, ta, tb = hd8(x, a, b), hl8(x, a), hl8(x, b)
+            ka, kb = ctx.kid(x, seg(a)), ctx.kid(x, seg(b))
+            vocab = [hl8, hd8, hn8, hp8, cp8, d8, seg, off, ctx.kid, ctx.nkids, ctx.rank, call["args"].cols[2], call["args"].cols[1], x, ctx.P, ctx.n]
+            st = lambda nm, vs, f_: X.prove_in_vocabulary(E, f"Tree.get_paths/step/{nm}", z3.ForAll(vs, f_), vocab)
+            a_, b_ = a - off(seg(a)), b - off(seg(a))
+            if which == "order":
+                same = z3.And(rng, seg(a) == seg(b))
+                st("two-entries-of-one-child-lie-in-its-segment", [a, b], z3.Implies(same, z3.And(0 <= seg(a), seg(a) < K, 0 <= a_, a_ < b_, b < off(seg(a) + 1), b_ < hn8(ka))))
+                st("two-entries-of-one-child-end-at-the-tips-recorded-for-it", [a, b], z3.Implies(same, z3.And(ta == hl8(ka, a_), tb == hl8(kb, b - off(seg(b))), tb == hl8(ka, b_))))
+                st("two-entries-of-one-child-differ-as-recorded-for-it", [a, b], z3.Implies(same, e == hd8(ka, a_, b_)))
+                st("two-entries-of-one-child-differ-where-they-differ-in-its-value", [a, b],
+                   z3.Implies(z3.And(rng, seg(a) == seg(b)), z3.And(e == hd8(ka, a - off(seg(a)), b - off(seg(a))), d8(x) < e, e <= d8(ta), e <= d8(tb), cp8(ta, e) < cp8(tb, e))))
+                st("entries-of-two-children-differ-right-below-the-node-earlier-child-first", [a, b],
+                   z3.Implies(z3.And(rng, seg(a) != seg(b)), z3.And(seg(a) < seg(b), e == d8(x) + 1, e <= d8(ta), e <= d8(tb), cp8(ta, e) == ka, cp8(tb, e) == kb, ka < kb)))
+            else:
+                st("two-entries-of-one-child-agree-where-they-agree-in-its-value", [a, b, j],
+                   z3.Implies(z3.And(rng, seg(a) == seg(b), 0 <= j, j < e), cp8(ta, j) == cp8(tb, j)))
+                st("entries-of-two-children-agree-down-to-the-node", [a, b, j],
+                   z3.Implies(z3.And(rng, seg(a) != seg(b), 0 <= j, j < e), z3.And(j <= d8(x), cp8(ta, j) == cp8(x, j), cp8(tb, j) == cp8(x, j))))
+
+        return f
+
+    def gp_hint_leave(E, vars):
+        """leave step, node with children: an entered tip below the node lies below exactly one child, whose value lists it"""
+        call, lc, ctx = E.ghost["traverse-last-call"], E.ghost.get("last-chain"), E.ghost["last-traverse-ctx"]
+        if lc is None or lc["src"] is not call["args"]:
+            return
+        x, ENT = call["x"], call["ENT"]
+        off, seg, K, ns = lc["off"], lc["seg"], lc["K"], call["args"].cols[2]
+        t = z3.Int(fresh_name("t"))
+        c = cp8(t, d8(x) + 1)
+        r = ctx.rank(c)
+        below = z3.And(sel(ENT, t), ctx.nkids(t) == 0, d8(t) >= d8(x), cp8(t, d8(x)) == x)
+        st = lambda nm, f: E.prove(f"Tree.get_paths/step/{nm}", z3.ForAll([t], z3.Implies(below, f)), "annotation")
+        st("a-tip-below-a-node-with-children-lies-below-one-of-the-children",
+           z3.And(d8(t) >= d8(x) + 1, ctx.R(c), sel(ctx.P, c) == x, d8(c) == d8(x) + 1, 0 <= r, r < K, ctx.kid(x, r) == c))
+        st("the-value-of-that-child-lists-the-tip", z3.And(0 <= hp8(c, t), hp8(c, t) < hn8(c), hl8(c, hp8(c, t)) == t, hn8(c) == sel(ns, r)))
+        st("the-position-of-the-tip-lies-in-the-segment-of-that-child", z3.And(off(r) <= hp8(x, t), hp8(x, t) < off(r + 1), off(r + 1) <= off(K), seg(hp8(x, t)) == r))
+
+    GP = ["paths-attached-to-this-tree", "every-path-starts-at-the-root", "consecutive-entries-are-parent-and-child", "every-path-ends-at-a-childless-node",
+          "every-childless-node-ends-a-path", "one-path-per-tip", "paths-ordered-by-the-first-node-in-which-they-differ-children-in-table-order"]
+    R.add(f"{TREE}:Tree.get_paths", prop="C08", setup=gp_setup,
+          ensures=[(w, gp_post(w)) for w in GP],
+          options=dict(OPTS, traverse_rule=Rule(gp_J, Qe=gp_Qe, Ql=gp_Ql, modifies=[("path_dic", "intlist-by-value")],
+                                                enter_kind=lambda E: _fresh_frozen_ints(E), leave_kind=lambda E: X.LList.fresh(E, "paths"),
+                                                leave_args=lambda E, K: _fresh_lll(E, K), ghost_enter=gp_ghost_enter, ghost_leave=gp_ghost_leave),
+                       hints={"post/every-path-ends-at-a-childless-node": gp_hint, "post/every-childless-node-ends-a-path": gp_hint_complete,
+                              "leave/invariant-preserved/a-node-below-a-left-node-is-left": gp_hint_below,
+                              "leave/returned-value-as-specified/paths-in-order-of-the-first-node-in-which-they-differ": gp_hint_order("order"),
+                              "leave/returned-value-as-specified/paths-agree-before-the-first-node-in-which-they-differ": gp_hint_order("agree"),
+                              "leave/invariant-preserved/the-value-of-a-left-node-lists-every-entered-tip-below-it": gp_hint_leave}),
+          notes="whole function, trees of any size (traverse client rule with list-valued callback results); the input tree is frozen")
+
+    # ================================================================ Tree.get_branches as a whole
+    # property: "The branches of a tree partition its edges: every edge lies in exactly one branch, each branch starts at the root or a
+    # furcation, ends at a furcation or a tip, and has only pass-through nodes in between."
+    # Value handed through the traversal: leave -> (closed branches below the node, pending chain from the last closed end up to the node).
+    # History functions (immutable; defined by ghost code right after the real `leave` call of x) name the value x returned:
+    #   hn9(x) / hLEN9(x, i) / hB9(x, i, j): number of closed branches, length of the i-th, its j-th node;  hlc9(x) / hc9(x, j): the chain
+    hn9, hlc9 = z3.Function("hn9", I_, I_), z3.Function("hlc9", I_, I_)
+    hLEN9, hc9 = z3.Function("hLEN9", I_, I_, I_), z3.Function("hc9", I_, I_, I_)
+    hB9 = z3.Function("hB9", I_, I_, I_, I_)
+
+    def gb_branch_fixed(E):
+        t = E.traverse_client_frame.lookup("self")
+        from swcgeom.core.swc_utils import get_types
+
+        return t, dict(attach=t, names=t.fields["names"], source=t.fields["source"], types=get_types())
+
+    def gb_leave_kind(E):
+        from swcgeom.core.tree import Tree
+
+        t, fixed = gb_branch_fixed(E)
+        n = z3.Int(fresh_name("nbr"))
+        ln, i = z3.Const(fresh_name("brlen"), X.AII), z3.Int(fresh_name("i"))
+        E.assume(z3.And(n >= 0, z3.ForAll([i], sel(ln, i) >= 0)))
+        b = X.BranchSeq.make(None, ln, n, Tree.Branch, fixed, "closed")
+        c = PList.fresh("int", name="pending")
+        E.assume(zint(c.n) >= 0)
+        return (b, c)
+
+    def gb_leave_args(E, K):
+        from swcgeom.core.tree import Tree
+
+        t, fixed = gb_branch_fixed(E)
+        a = X.PairList(E, K, Tree.Branch, fixed, "pre")
+        return a, a.view
+
+    def bs_view(b):
+        if isinstance(b, X.BranchSeq):
+            return b.cols[0], b.cols[1], zint(b.n)
+        if isinstance(b, PList) and b.items == []:
+            return z3.K(I_, z3.K(I_, z3.IntVal(0))), z3.K(I_, z3.IntVal(0)), z3.IntVal(0)
+        return None
+
+    def gb_value(val):
+        if not (isinstance(val, tuple) and len(val) == 2 and isinstance(val[1], PList) and not isinstance(val[1], (X.LList, X.BranchSeq)) and (val[1].items is not None or val[1].kinds == ["int"])):
+            return None
+        bv = bs_view(val[0])
+        if bv is None:
+            return None
+        return bv + list_view8(val[1])
+
+    def gb_good(x, ctx):
+        """the value recorded for x is well formed (in terms of the history functions): (label, formula) list"""
+        P, R_, nk = ctx.P, ctx.R, ctx.nkids
+        i, j = z3.Int(fresh_name("i")), z3.Int(fresh_name("j"))
+        n, lc = hn9(x), hlc9(x)
+        L, b, c = (lambda a: hLEN9(x, a)), (lambda a, e: hB9(x, a, e)), (lambda e: hc9(x, e))
+        ini = z3.And(0 <= i, i < n)
+        return [
+            ("the-pending-chain-ends-at-the-node", z3.And(n >= 0, lc >= 1, c(lc - 1) == x)),
+            ("the-pending-chain-climbs-from-child-to-parent", z3.ForAll([j], z3.Implies(z3.And(0 <= j, j < lc - 1), z3.And(R_(c(j)), sel(P, c(j)) == c(j + 1))), patterns=[c(j)])),
+            ("the-pending-chain-starts-at-a-tip-or-furcation-and-continues-through-pass-through-nodes",
+             z3.And(nk(c(0)) != 1, z3.ForAll([j], z3.Implies(z3.And(1 <= j, j < lc), nk(c(j)) == 1), patterns=[c(j)]))),
+            ("every-closed-branch-starts-at-a-furcation-and-ends-at-a-furcation-or-tip",
+             z3.ForAll([i], z3.Implies(ini, z3.And(L(i) >= 2, nk(b(i, 0)) >= 2, nk(b(i, L(i) - 1)) != 1)), patterns=[L(i), b(i, 0)])),
+            ("every-closed-branch-descends-from-parent-to-child",
+             z3.ForAll([i, j], z3.Implies(z3.And(ini, 0 <= j, j < L(i)), z3.And(R_(b(i, j)), z3.Implies(j >= 1, sel(P, b(i, j)) == b(i, j - 1)))), patterns=[b(i, j)])),
+            ("every-closed-branch-has-only-pass-through-nodes-inside",
+             z3.ForAll([i, j], z3.Implies(z3.And(ini, 1 <= j, j < L(i) - 1), nk(b(i, j)) == 1), patterns=[b(i, j)]))]
+
+    def gb_Ql(E, v, x, val, ctx):
+        vw = gb_value(val)
+        if vw is None:
+            return False
+        IDX, LEN, n, C, lc = vw
+        i, j = z3.Int(fresh_name("i")), z3.Int(fresh_name("j"))
+        return [("the-value-has-the-recorded-sizes", z3.And(n == hn9(x), lc == hlc9(x))),
+                ("the-closed-branches-have-the-recorded-lengths", z3.ForAll([i], sel(LEN, i) == hLEN9(x, i), patterns=[sel(LEN, i)])),
+                ("the-closed-branches-have-the-recorded-entries", z3.ForAll([i, j], sel(sel(IDX, i), j) == hB9(x, i, j), patterns=[sel(sel(IDX, i), j)])),
+                ("the-pending-chain-has-the-recorded-entries", z3.ForAll([j], sel(C, j) == hc9(x, j), patterns=[sel(C, j)]))] + gb_good(x, ctx)
+
+    def gb_ghost_leave(E, v, x, ctx):
+        """definitions of the history functions of THIS leave call (x is left exactly once)"""
+        vw = gb_value(E.ghost["traverse-last-call"]["ret"])
+        if vw is None:
+            raise X.Unsupported("get_branches: the leave callback returned something that is not (list of branches, int list)")
+        IDX, LEN, n, C, lc = vw
+        i, j = z3.Int(fresh_name("i")), z3.Int(fresh_name("j"))
+        E.assume(z3.And(hn9(x) == n, hlc9(x) == lc))
+        E.assume(z3.ForAll([i], hLEN9(x, i) == sel(LEN, i), patterns=[hLEN9(x, i)]))
+        E.assume(z3.ForAll([i, j], hB9(x, i, j) == sel(sel(IDX, i), j), patterns=[hB9(x, i, j)]))
+        E.assume(z3.ForAll([j], hc9(x, j) == sel(C, j), patterns=[hc9(x, j)]))
+        E.assumptions.add("ghost definitions per leave call of get_branches: hn9 / hLEN9 / hB9 / hlc9 / hc9 name the value (closed branches, pending chain) the callback returned for x")
+
+    # ---- where the edge into every left node is (ghost state, updated in bulk by ghost code after every leave call):
+    #   own[v]   the node whose (not yet consumed) value holds v;   inch[v]: v is in its pending chain at position pos[v],
+    #   otherwise v is entry bp[v] >= 1 of its closed branch number bi[v]  (so the edge (parent of v, v) is entries bp[v]-1, bp[v])
+    def gbw_setup(S):
+        t = wf_tree8(S)
+        n = nof(t)
+        mk = lambda nm, k: SArr.fresh(k, n, name=nm)
+        G = Obj(Ghost8, dict(own=mk("own", "int"), inch=mk("inch", "bool"), pos=mk("pos", "int"), bi=mk("bi", "int"), bp=mk("bp", "int")))
+        return dict(self=t, G9=G)
+
+    def g9(v):
+        f = v["G9"].fields
+        return f["own"].arr, f["inch"].arr, f["pos"].arr, f["bi"].arr, f["bp"].arr
+
+    def gb_J(E, v, ENT, LEFT, ctx):
+        own, inch, pos, bi, bp = g9(v)
+        P, R_, root = ctx.P, ctx.R, ctx.root
+        left = lambda a: z3.simplify(sel(LEFT, a))
+        pending = lambda o: z3.And(left(o), z3.Or(o == root, z3.Not(left(sel(P, o)))))
+        u, o, i, j = (z3.Int(fresh_name(a)) for a in ("u", "o", "i", "j"))
+        ou = sel(own, u)
+        cu, bu = hc9(o, j), hB9(o, i, j)
+        return [
+            ("the-holder-of-a-left-node-is-a-left-node-whose-parent-is-not-left",
+             z3.ForAll([u], z3.Implies(z3.And(R_(u), left(u)), z3.And(R_(ou), pending(ou))), patterns=[sel(own, u)])),
+            ("a-left-node-is-where-its-record-says",
+             z3.ForAll([u], z3.Implies(z3.And(R_(u), left(u)),
+                                       z3.If(sel(inch, u), z3.And(0 <= sel(pos, u), sel(pos, u) < hlc9(ou), hc9(ou, sel(pos, u)) == u),
+                                             z3.And(0 <= sel(bi, u), sel(bi, u) < hn9(ou), 1 <= sel(bp, u), sel(bp, u) < hLEN9(ou, sel(bi, u)), hB9(ou, sel(bi, u), sel(bp, u)) == u))),
+                       patterns=[sel(own, u), sel(inch, u)])),
+            ("every-entry-of-a-pending-chain-is-recorded-there",
+             z3.ForAll([o, j], z3.Implies(z3.And(R_(o), pending(o), 0 <= j, j < hlc9(o)), z3.And(R_(cu), left(cu), sel(own, cu) == o, sel(inch, cu), sel(pos, cu) == j)), patterns=[hc9(o, j)])),
+            ("every-entry-but-the-first-of-a-closed-branch-is-recorded-there",
+             z3.ForAll([o, i, j], z3.Implies(z3.And(R_(o), pending(o), 0 <= i, i < hn9(o), 1 <= j, j < hLEN9(o, i)),
+                                             z3.And(R_(bu), left(bu), sel(own, bu) == o, z3.Not(sel(inch, bu)), sel(bi, bu) == i, sel(bp, bu) == j)), patterns=[hB9(o, i, j)]))]
+
+    def gb_ghost_update(E, v, x, ctx):
+        """bulk update of the records after the leave call of x: everything the children held is now held by x"""
+        call = E.ghost["traverse-last-call"]
+        LEFT, pre = call["LEFT"], call["args"]
+        if not isinstance(pre, X.PairList):
+            raise X.Unsupported("get_branches: child results are not the rule's list")
+        G = v["G9"].fields
+        own, inch, pos, bi, bp = g9(v)
+        K, loff = ctx.nkids(x), pre.loff
+        moved = lambda u: z3.And(ctx.R(u), sel(LEFT, u), ctx.R(sel(own, u)), sel(ctx.P, sel(own, u)) == x)
+        kk = lambda u: ctx.rank(sel(own, u))
+        kd = lambda u: sel(own, u)
+        one = K == 1
+        pw = lambda nm, so, body: X.pointwise(E, so, nm, body)
+        AIB = z3.ArraySort(I_, B_)
+        G["own"].arr = pw("own", X.AII, lambda u: z3.If(u == x, x, z3.If(moved(u), x, sel(own, u))))
+        G["inch"].arr = pw("inch", AIB, lambda u: z3.If(u == x, z3.BoolVal(True), z3.If(moved(u), z3.And(one, sel(inch, u)), sel(inch, u))))
+        G["pos"].arr = pw("pos", X.AII, lambda u: z3.If(u == x, hlc9(x) - 1, sel(pos, u)))
+        G["bi"].arr = pw("bi", X.AII, lambda u: z3.If(z3.And(moved(u), z3.Not(one)), z3.If(sel(inch, u), loff(kk(u)), loff(kk(u)) + hn9(kd(u)) - sel(bi, u)), sel(bi, u)))
+        G["bp"].arr = pw("bp", X.AII, lambda u: z3.If(z3.And(moved(u), z3.Not(one), sel(inch, u)), hlc9(kd(u)) - sel(pos, u), sel(bp, u)))
+
+    def gb_ghost_leave2(E, v, x, ctx):
+        gb_ghost_leave(E, v, x, ctx)
+        gb_ghost_update(E, v, x, ctx)
+
+    # ---- the loop of the callback: after k children,  branches = for each child k' < k: [node + its chain reversed] + its closed branches reversed
+    def cb_loop_vocab(E, v):
+        pre, br = v["pre"], v["branches"]
+        if not isinstance(pre, X.PairList):
+            raise X.Unsupported("collect_branches: `pre` is not the list of child results of the traverse rule")
+        bv = bs_view(br)
+        if bv is None:
+            raise X.Unsupported("collect_branches: `branches` is not a list of branches")
+        x = to_z3(v["node"].fields["idx"], "int")
+        return pre, bv, x, to_z3(v["_k0"], "int")
+
+    def cb_inv(which):
+        def f(E, v, o):
+            pre, (IDX, LEN, n), x, k = cb_loop_vocab(E, v)
+            BIDX, BLEN, BN, CH, CN = pre.cols
+            loff = pre.loff
+            k1, i, j = z3.Int(fresh_name("k")), z3.Int(fresh_name("i")), z3.Int(fresh_name("j"))
+            p = loff(k1) + i
+            blk = z3.And(0 <= k1, k1 < k, 0 <= i, i <= sel(BN, k1))
+            if which == "count":
+                return n == loff(k)
+            if which == "lengths":
+                return z3.ForAll([k1, i], z3.Implies(blk, sel(LEN, p) == z3.If(i == 0, sel(CN, k1) + 1, sel(sel(BLEN, k1), sel(BN, k1) - i))))
+            if which == "contents":
+                return z3.ForAll([k1, i, j], z3.Implies(z3.And(blk, 0 <= j, j < sel(LEN, p)),
+                                                        sel(sel(IDX, p), j) == z3.If(i == 0, z3.If(j == 0, x, sel(sel(CH, k1), sel(CN, k1) - j)), sel(sel(sel(BIDX, k1), sel(BN, k1) - i), j))))
+            raise KeyError(which)
+
+        return f
+
+    CB_LOOP = dict(invariant=[("as-many-branches-as-the-children-so-far-contribute", cb_inv("count")),
+                              ("per-child-first-the-branch-closed-at-the-node-then-its-closed-branches-reversed-lengths", cb_inv("lengths")),
+                              ("per-child-first-the-branch-closed-at-the-node-then-its-closed-branches-reversed-contents", cb_inv("contents"))],
+                   types={"branches": X.branch_seq_empty})
+
+    def gb_result(v):
+        from swcgeom.core.tree import Tree
+
+        res = v["result"]
+        if not (isinstance(res, X.BranchSeq) and res.cls_ is Tree.Branch):
+            return None
+        return res
+
+    def one_child(t, x):
+        """exactly one row names x as parent"""
+        r, r2 = z3.Int(fresh_name("r")), z3.Int(fresh_name("r2"))
+        P, n = col(t, "pid").arr, nof(t)
+        return z3.Exists([r], z3.And(0 <= r, r < n, sel(P, r) == x, z3.ForAll([r2], z3.Implies(z3.And(0 <= r2, r2 < n, sel(P, r2) == x), r2 == r))))
+
+    def decided(E, cond):
+        """the condition as a Python bool when the (quantifier-free part of the) path condition decides it, else the condition itself"""
+        if not E.feasible(z3.Not(cond)):
+            return z3.BoolVal(True)
+        if not E.feasible(cond):
+            return z3.BoolVal(False)
+        return cond
+
+    def ite(c, a, b):
+        return a if z3.is_true(c) else (b if z3.is_false(c) else z3.If(c, a, b))
+
+    def gbw_post(which):
+        def f(E, v, o):
+            t = o["self"]
+            res = gb_result(v)
+            if res is None:
+                return False
+            E.ghost["gb-result"] = res
+            if which == "branches-attached-to-this-tree":
+                return res.fixed.get("attach") is v["self"] and res.fixed.get("names") is t.fields["names"]
+            out = gbw_post_formula(E, v, o, t, res, which)
+            E.ghost[("gb-post", which)] = out  # the very formula: a hint may prove it first in a reduced context
+            return out
+
+        return f
+
+    def gbw_post_formula(E, v, o, t, res, which):
+        if True:
+            IDX, LEN, m = res.cols[0], res.cols[1], zint(res.n)
+            P, n = col(t, "pid").arr, nof(t)
+            i, j = z3.Int(fresh_name("i")), z3.Int(fresh_name("j"))
+            ini = z3.And(0 <= i, i < m)
+            at = lambda a, b: sel(sel(IDX, a), b)
+            if which == "every-branch-has-an-edge-and-consecutive-entries-are-parent-and-child":
+                return z3.And(z3.ForAll([i], z3.Implies(ini, sel(LEN, i) >= 2)),
+                              z3.ForAll([i, j], z3.Implies(z3.And(ini, 0 <= j, j < sel(LEN, i)), z3.And(0 <= at(i, j), at(i, j) < n, z3.Implies(j >= 1, sel(P, at(i, j)) == at(i, j - 1))))))
+            if which == "every-branch-starts-at-the-root-or-a-furcation":
+                return z3.ForAll([i], z3.Implies(ini, z3.Or(at(i, 0) == 0, two_rows(t, at(i, 0)))))
+            if which == "every-branch-ends-at-a-furcation-or-a-tip":
+                e = at(i, sel(LEN, i) - 1)
+                return z3.ForAll([i], z3.Implies(ini, z3.Or(two_rows(t, e), no_child(t, e))))
+            if which == "interior-nodes-are-pass-through":
+                return z3.ForAll([i, j], z3.Implies(z3.And(ini, 1 <= j, j < sel(LEN, i) - 1), one_child(t, at(i, j))))
+            lc, hn = hlc9(0), hn9(0)
+            closing = decided(E, lc > 1)  # the pending chain of the root has an edge: it is closed as a branch that starts at the root
+            q = z3.Int(fresh_name("q"))
+            inq = z3.And(0 <= q, q < m)
+            if which == "pending-chain-of-more-than-one-node-closed-root-first":
+                # (where in the list the closing branch stands is not part of the property)
+                return ite(closing, z3.And(lc > 1, m == hn + 1, z3.Exists([q], z3.And(inq, sel(LEN, q) == lc, z3.ForAll([j], z3.Implies(z3.And(0 <= j, j < lc), at(q, j) == hc9(0, lc - 1 - j)))))),
+                           z3.And(lc <= 1, m == hn))
+            if which == "every-branch-of-the-traversal-kept":
+                return z3.ForAll([i], z3.Implies(z3.And(0 <= i, i < hn), z3.Exists([q], z3.And(inq, sel(LEN, q) == hLEN9(0, i), z3.ForAll([j], z3.Implies(z3.And(0 <= j, j < hLEN9(0, i)), at(q, j) == hB9(0, i, j)))))))
+            own, inch, pos, bi, bp = g9(v)
+            u, i2, j2 = z3.Int(fresh_name("u")), z3.Int(fresh_name("i2")), z3.Int(fresh_name("j2"))
+            fi = ite(closing, z3.If(sel(inch, u), 0, hn - sel(bi, u)), sel(bi, u))
+            fj = ite(closing, z3.If(sel(inch, u), lc - 1 - sel(pos, u), sel(bp, u)), sel(bp, u))
+            edge = z3.And(0 < u, u < n)  # the edge (parent of u, u) of a node u other than the root
+            if which == "every-edge-lies-in-a-branch-at-its-recorded-place":
+                return z3.ForAll([u], z3.Implies(edge, z3.And(0 <= fi, fi < m, 1 <= fj, fj < sel(LEN, fi), at(fi, fj) == u, at(fi, fj - 1) == sel(P, u))))
+            if which == "every-edge-lies-in-some-branch":
+                return z3.ForAll([u], z3.Implies(edge, z3.Exists([i, j], z3.And(ini, 1 <= j, j < sel(LEN, i), at(i, j) == u, at(i, j - 1) == sel(P, u)))))
+            end = lambda a: at(a, sel(LEN, a) - 1)
+            if which == "every-tip-and-furcation-other-than-the-root-ends-a-branch":
+                return z3.ForAll([u], z3.Implies(z3.And(edge, z3.Or(two_rows(t, u), no_child(t, u))), z3.Exists([i], z3.And(ini, end(i) == u))), patterns=[sel(col(t, "id").arr, u)])
+            if which == "no-two-branches-end-at-the-same-node":
+                return z3.ForAll([i, i2], z3.Implies(z3.And(ini, 0 <= i2, i2 < m, i != i2), end(i) != end(i2)))
+            if which == "every-branch-starts-at-the-root-or-where-another-branch-ends":
+                return z3.ForAll([i], z3.Implies(ini, z3.Or(at(i, 0) == 0, z3.Exists([i2], z3.And(0 <= i2, i2 < m, end(i2) == at(i, 0))))))
+            if which == "no-edge-lies-in-two-branches-or-twice-in-one":
+                return z3.ForAll([i, j, i2, j2], z3.Implies(z3.And(ini, 0 <= i2, i2 < m, 1 <= j, j < sel(LEN, i), 1 <= j2, j2 < sel(LEN, i2), at(i, j) == at(i2, j2)), z3.And(i == i2, j == j2)))
+            raise KeyError(which)
+
+    def gbw_hint(E, vars):
+        """child counts in terms of rows (from the definition of kid / rank)"""
+        ctx = E.ghost["last-traverse-ctx"]
+        t = vars["self"]
+        P, n = col(t, "pid").arr, nof(t)
+        x, a, b = z3.Int(fresh_name("x")), z3.Int(fresh_name("a")), z3.Int(fresh_name("b"))
+        k0, k1 = ctx.kid(x, 0), ctx.kid(x, 1)
+        voc = [ctx.nkids, ctx.kid, ctx.rank, ctx.P, ctx.n, col(t, "id").arr]
+        st = lambda nm, f_: X.prove_in_vocabulary(E, f"Tree.get_branches/step/{nm}", f_, voc)
+        st("the-first-two-children-are-two-rows-naming-the-node-as-parent",
+           z3.ForAll([x], z3.Implies(z3.And(ctx.R(x), ctx.nkids(x) > 1), z3.And(0 <= k0, k0 < k1, k1 < n, sel(P, k0) == x, sel(P, k1) == x)), patterns=[ctx.nkids(x)]))
+        st("a-node-with-two-or-more-children-is-a-furcation", z3.ForAll([x], z3.Implies(z3.And(ctx.R(x), ctx.nkids(x) > 1), two_rows(t, x)), patterns=[ctx.nkids(x)]))
+        st("no-row-names-a-node-without-children-as-parent", z3.ForAll([x, a], z3.Implies(z3.And(ctx.R(x), ctx.nkids(x) == 0, 0 <= a, a < n), sel(P, a) != x)))
+        st("a-node-without-children-is-a-tip", z3.ForAll([x], z3.Implies(z3.And(ctx.R(x), ctx.nkids(x) == 0), no_child(t, x)), patterns=[ctx.nkids(x)]))
+        st("the-only-child-is-the-only-row-naming-the-node-as-parent",
+           z3.ForAll([x, a], z3.Implies(z3.And(ctx.R(x), ctx.nkids(x) == 1, 0 <= a, a < n, sel(P, a) == x), z3.And(a == k0, ctx.R(k0), sel(P, k0) == x))))
+        st("a-node-with-one-child-is-a-pass-through-node", z3.ForAll([x], z3.Implies(z3.And(ctx.R(x), ctx.nkids(x) == 1), one_child(t, x)), patterns=[ctx.nkids(x)]))
+        # the shape of every branch of the result in terms of child counts
+        res = E.ghost["gb-result"]
+        IDX, LEN, m = res.cols[0], res.cols[1], zint(res.n)
+        i, j = z3.Int(fresh_name("i")), z3.Int(fresh_name("j"))
+        at = lambda a_, b_: sel(sel(IDX, a_), b_)
+        ini = z3.And(0 <= i, i < m)
+        voc2 = [ctx.nkids, ctx.P, ctx.n, IDX, LEN, m, hB9, hn9, hLEN9, hc9, hlc9]
+        st2 = lambda nm, f_: X.prove_in_vocabulary(E, f"Tree.get_branches/step/{nm}", f_, voc2)
+        lc, hn = hlc9(0), hn9(0)
+        closing = decided(E, lc > 1)
+        other = z3.And(ini, z3.Not(z3.And(closing, i == 0)))
+        ri = ite(closing, hn - i, i)
+        if z3.is_true(closing):
+            st2("the-branch-that-closes-the-pending-chain-of-the-root-starts-at-the-root", z3.And(ctx.R(at(0, 0)), at(0, 0) == 0))
+        st2("a-branch-closed-during-the-traversal-starts-at-a-node-with-two-or-more-children",
+            z3.ForAll([i], z3.Implies(other, z3.And(at(i, 0) == hB9(0, ri, 0), ctx.R(at(i, 0)), ctx.nkids(at(i, 0)) >= 2)), patterns=[sel(LEN, i)]))
+        st2("every-branch-starts-at-the-root-or-at-a-node-with-two-or-more-children", z3.ForAll([i], z3.Implies(ini, z3.And(ctx.R(at(i, 0)), z3.Or(at(i, 0) == 0, ctx.nkids(at(i, 0)) >= 2))), patterns=[sel(LEN, i)]))
+        st2("every-branch-ends-at-a-node-that-has-not-exactly-one-child", z3.ForAll([i], z3.Implies(ini, z3.And(ctx.R(at(i, sel(LEN, i) - 1)), ctx.nkids(at(i, sel(LEN, i) - 1)) != 1)), patterns=[sel(LEN, i)]))
+        st2("every-interior-node-of-a-branch-has-exactly-one-child", z3.ForAll([i, j], z3.Implies(z3.And(ini, 1 <= j, j < sel(LEN, i) - 1), z3.And(ctx.R(at(i, j)), ctx.nkids(at(i, j)) == 1)), patterns=[at(i, j)]))
+
+    def gbw_hint_mapping(E, vars):
+        """which branch of the traversal a branch of the result is (the result is the traversal's list, or that list with the closing branch
+        appended, reversed)"""
+        res = E.ghost["gb-result"]
+        IDX, LEN, m = res.cols[0], res.cols[1], zint(res.n)
+        lc, hn = hlc9(0), hn9(0)
+        closing = decided(E, lc > 1)
+        i, j = z3.Int(fresh_name("i")), z3.Int(fresh_name("j"))
+        at = lambda a, b: sel(sel(IDX, a), b)
+        ri = ite(closing, hn - i, i)
+        other = z3.And(0 <= i, i < m, z3.Not(z3.And(closing, i == 0)))
+        if z3.is_true(closing):
+            E.prove("Tree.get_branches/step/the-first-branch-of-the-result-closes-the-pending-chain-of-the-root-root-first",
+                    z3.And(m == hn + 1, sel(LEN, 0) == lc, z3.ForAll([j], z3.Implies(z3.And(0 <= j, j < lc), at(0, j) == hc9(0, lc - 1 - j)), patterns=[at(0, j)])), "annotation")
+        E.prove("Tree.get_branches/step/a-branch-other-than-the-closing-one-is-a-branch-of-the-traversal",
+                z3.And(z3.ForAll([i], z3.Implies(other, z3.And(0 <= ri, ri < hn, sel(LEN, i) == hLEN9(0, ri))), patterns=[sel(LEN, i)]),
+                       z3.ForAll([i, j], z3.Implies(z3.And(other, 0 <= j, j < sel(LEN, i)), at(i, j) == hB9(0, ri, j)), patterns=[at(i, j)])), "annotation")
+        E.prove("Tree.get_branches/step/a-branch-of-the-traversal-is-a-branch-of-the-result",
+                z3.ForAll([i], z3.Implies(z3.And(0 <= i, i < hn), z3.And(0 <= ri, ri < m, z3.Not(z3.And(closing, ri == 0)), ite(closing, hn - ri, ri) == i, sel(LEN, ri) == hLEN9(0, i), z3.ForAll([j], z3.Implies(z3.And(0 <= j, j < hLEN9(0, i)), at(ri, j) == hB9(0, i, j))))),
+                          patterns=[hLEN9(0, i)]), "annotation")
+
+    def gbw_hint_edges(which):
+        def f(E, vars):
+            ctx = E.ghost["last-traverse-ctx"]
+            t, res = vars["self"], E.ghost["gb-result"]
+            IDX, LEN, m = res.cols[0], res.cols[1], zint(res.n)
+            P, n = col(t, "pid").arr, nof(t)
+            own, inch, pos, bi, bp = g9(vars)
+            lc, hn = hlc9(0), hn9(0)
+            closing = decided(E, lc > 1)
+            u, i, j = z3.Int(fresh_name("u")), z3.Int(fresh_name("i")), z3.Int(fresh_name("j"))
+            at = lambda a, b: sel(sel(IDX, a), b)
+            voc = [own, inch, pos, bi, bp, hc9, hB9, hn9, hlc9, hLEN9, E.ghost["last-traverse-Sub"], ctx.P, ctx.n, ctx.nkids, IDX, LEN, m]
+            st = lambda nm, f_: X.prove_in_vocabulary(E, f"Tree.get_branches/step/{nm}", f_, voc)
+            edge = z3.And(0 < u, u < n)
+            if which == "cover":
+                st("at-the-end-the-root-holds-every-node", z3.ForAll([u], z3.Implies(ctx.R(u), sel(own, u) == 0), patterns=[sel(own, u)]))
+                st("a-node-other-than-the-root-in-the-pending-chain-of-the-root-has-its-parent-next-in-it",
+                   z3.ForAll([u], z3.Implies(z3.And(edge, sel(inch, u)), z3.And(lc > 1, 0 <= sel(pos, u), sel(pos, u) <= lc - 2, hc9(0, sel(pos, u)) == u, hc9(0, sel(pos, u) + 1) == sel(P, u))), patterns=[sel(inch, u), sel(pos, u)]))
+                st("a-node-in-a-closed-branch-has-its-parent-before-it",
+                   z3.ForAll([u], z3.Implies(z3.And(edge, z3.Not(sel(inch, u))), z3.And(0 <= sel(bi, u), sel(bi, u) < hn, 1 <= sel(bp, u), sel(bp, u) < hLEN9(0, sel(bi, u)),
+                                                                                       hB9(0, sel(bi, u), sel(bp, u)) == u, hB9(0, sel(bi, u), sel(bp, u) - 1) == sel(P, u))), patterns=[sel(inch, u), sel(bi, u)]))
+                fi = ite(closing, z3.If(sel(inch, u), 0, hn - sel(bi, u)), sel(bi, u))
+                fj = ite(closing, z3.If(sel(inch, u), lc - 1 - sel(pos, u), sel(bp, u)), sel(bp, u))
+                place = z3.And(0 <= fi, fi < m, 1 <= fj, fj < sel(LEN, fi), at(fi, fj) == u, at(fi, fj - 1) == sel(P, u))
+                st("the-edge-into-a-node-of-the-pending-chain-of-the-root-lies-in-the-branch-that-closes-it", z3.ForAll([u], z3.Implies(z3.And(edge, sel(inch, u)), place), patterns=[sel(inch, u), sel(bi, u), sel(pos, u)]))
+                st("the-edge-into-a-node-of-a-closed-branch-lies-in-that-branch", z3.ForAll([u], z3.Implies(z3.And(edge, z3.Not(sel(inch, u))), place), patterns=[sel(inch, u), sel(bi, u), sel(pos, u)]))
+                st("the-edge-into-every-node-but-the-root-lies-in-a-branch", z3.ForAll([u], z3.Implies(edge, place), patterns=[sel(inch, u), sel(bi, u), sel(pos, u)]))
+            else:
+                w = at(i, j)
+                rng = z3.And(0 <= i, i < m, 1 <= j, j < sel(LEN, i))
+                st("an-entry-of-the-branch-that-closes-the-chain-of-the-root-is-recorded-in-that-chain",
+                   z3.ForAll([i, j], z3.Implies(z3.And(rng, closing, i == 0), z3.And(sel(inch, w), sel(pos, w) == lc - 1 - j)), patterns=[at(i, j)]))
+                st("an-entry-of-another-branch-is-recorded-in-it",
+                   z3.ForAll([i, j], z3.Implies(z3.And(rng, z3.Not(z3.And(closing, i == 0))), z3.And(z3.Not(sel(inch, w)), sel(bi, w) == ite(closing, hn - i, i), sel(bp, w) == j)), patterns=[at(i, j)]))
+
+        return f
+
+    def gbw_hint_ends(E, vars):
+        ctx, t, res = E.ghost["last-traverse-ctx"], vars["self"], E.ghost["gb-result"]
+        IDX, LEN, m = res.cols[0], res.cols[1], zint(res.n)
+        P, n = col(t, "pid").arr, nof(t)
+        own, inch, pos, bi, bp = g9(vars)
+        lc, hn = hlc9(0), hn9(0)
+        closing = decided(E, lc > 1)
+        u, x, a, b = (z3.Int(fresh_name(c)) for c in "uxab")
+        at = lambda a_, b_: sel(sel(IDX, a_), b_)
+        fi = ite(closing, z3.If(sel(inch, u), 0, hn - sel(bi, u)), sel(bi, u))
+        fj = ite(closing, z3.If(sel(inch, u), lc - 1 - sel(pos, u), sel(bp, u)), sel(bp, u))
+        edge = z3.And(0 < u, u < n)
+        voc = [ctx.P, ctx.n, IDX, LEN, m, ctx.nkids, ctx.kid, ctx.rank, col(t, "id").arr] + list(g9(vars)) + [hn9, hlc9]
+        st = lambda nm, f_: X.prove_in_vocabulary(E, f"Tree.get_branches/step/{nm}", f_, voc)
+        st("two-rows-naming-a-node-as-parent-are-two-children", z3.ForAll([x, a, b], z3.Implies(z3.And(ctx.R(x), 0 <= a, a < b, b < n, sel(P, a) == x, sel(P, b) == x), ctx.nkids(x) > 1)))
+        st("a-furcation-has-two-or-more-children", z3.ForAll([x], z3.Implies(z3.And(ctx.R(x), two_rows(t, x)), ctx.nkids(x) >= 2), patterns=[sel(col(t, "id").arr, x), ctx.nkids(x)]))
+        st("a-node-with-children-is-named-as-parent-by-its-first-child", z3.ForAll([x], z3.Implies(z3.And(ctx.R(x), ctx.nkids(x) > 0), z3.And(ctx.R(ctx.kid(x, 0)), sel(P, ctx.kid(x, 0)) == x)), patterns=[ctx.nkids(x)]))
+        st("a-tip-has-no-children", z3.ForAll([x], z3.Implies(z3.And(ctx.R(x), no_child(t, x)), ctx.nkids(x) == 0), patterns=[sel(col(t, "id").arr, x), ctx.nkids(x)]))
+        st("a-node-that-is-not-a-pass-through-node-is-the-last-entry-of-the-branch-that-holds-the-edge-into-it",
+           z3.ForAll([u], z3.Implies(z3.And(edge, ctx.nkids(u) != 1), z3.And(0 <= fi, fi < m, fj == sel(LEN, fi) - 1, at(fi, fj) == u)), patterns=[ctx.nkids(u)]))
+
+    def gbw_then_post(which, first=None, kind="shape"):
+        """hint: run the steps of `first`, then prove THE formula of postcondition `which` in a reduced context (it is then a hypothesis of the
+        postcondition's own obligation, which is discharged at once)"""
+        def f(E, vars):
+            if first is not None:
+                first(E, vars)
+            ctx, t, res = E.ghost["last-traverse-ctx"], vars["self"], E.ghost["gb-result"]
+            voc = [ctx.P, ctx.n, res.cols[0], res.cols[1], zint(res.n)] + ([ctx.nkids, col(t, "id").arr] if kind == "shape" else [hn9, hlc9, hLEN9, hB9, hc9] if kind == "map" else list(g9(vars)) + [hn9, hlc9])
+            if kind == "ends":
+                voc += [ctx.nkids, col(t, "id").arr]
+            X.prove_in_vocabulary(E, f"Tree.get_branches/step/{which}-from-the-steps", E.ghost[("gb-post", which)], voc)
+
+        return f
+
+    GBW = ["branches-attached-to-this-tree", "pending-chain-of-more-than-one-node-closed-root-first", "every-branch-of-the-traversal-kept",
+           "every-branch-has-an-edge-and-consecutive-entries-are-parent-and-child", "every-branch-starts-at-the-root-or-a-furcation",
+           "every-branch-ends-at-a-furcation-or-a-tip", "interior-nodes-are-pass-through",
+           "every-edge-lies-in-a-branch-at-its-recorded-place", "every-edge-lies-in-some-branch", "no-edge-lies-in-two-branches-or-twice-in-one",
+           # corollaries that the branch tree rests on ("exactly the root, furcations and tips as nodes, joined as the branches join them")
+           "no-two-branches-end-at-the-same-node", "every-tip-and-furcation-other-than-the-root-ends-a-branch", "every-branch-starts-at-the-root-or-where-another-branch-ends"]
+    R.add(f"{TREE}:Tree.get_branches", prop="C08", setup=gbw_setup,
+          ensures=[(w, gbw_post(w)) for w in GBW],
+          inlined_loops={f"{TREE}:Tree.get_branches.<locals>.collect_branches": {0: CB_LOOP}},
+          options=dict(OPTS, traverse_rule=Rule(gb_J, Ql=gb_Ql, modifies=["G9"], leave_kind=gb_leave_kind, leave_args=gb_leave_args, ghost_leave=gb_ghost_leave2),
+                       hints={"post/pending-chain-of-more-than-one-node-closed-root-first": gbw_then_post("pending-chain-of-more-than-one-node-closed-root-first", gbw_hint_mapping, kind="map"),
+                              "post/every-branch-of-the-traversal-kept": gbw_then_post("every-branch-of-the-traversal-kept", kind="map"),
+                              "post/every-branch-starts-at-the-root-or-a-furcation": gbw_then_post("every-branch-starts-at-the-root-or-a-furcation", gbw_hint),
+                              "post/every-branch-ends-at-a-furcation-or-a-tip": gbw_then_post("every-branch-ends-at-a-furcation-or-a-tip"),
+                              "post/interior-nodes-are-pass-through": gbw_then_post("interior-nodes-are-pass-through"),
+                              "post/every-edge-lies-in-a-branch-at-its-recorded-place": gbw_hint_edges("cover"),
+                              "post/every-edge-lies-in-some-branch": gbw_then_post("every-edge-lies-in-some-branch", kind="edges"),
+                              "post/no-edge-lies-in-two-branches-or-twice-in-one": gbw_then_post("no-edge-lies-in-two-branches-or-twice-in-one", gbw_hint_edges("unique"), kind="edges"),
+                              "post/no-two-branches-end-at-the-same-node": gbw_then_post("no-two-branches-end-at-the-same-node", kind="edges"),
+                              "post/every-tip-and-furcation-other-than-the-root-ends-a-branch": gbw_then_post("every-tip-and-furcation-other-than-the-root-ends-a-branch", gbw_hint_ends, kind="ends"),
+                              "post/every-branch-starts-at-the-root-or-where-another-branch-ends": gbw_then_post("every-branch-starts-at-the-root-or-where-another-branch-ends", kind="ends")}),
+          notes="whole function, trees of any size (traverse client rule with (list of branches, chain) leave values; loop of the callback cut at an invariant); the input tree is frozen")
+
+    # ================================================================ BranchTree.get_origin_node_branches / get_origin_branches
+    # "[the branch tree] remembers each original branch's points": the two read accessors of the `branches` registry (start node -> the
+    # original branches that start there).  The Branch objects are opaque references here.
+    BT = "swcgeom/core/branch_tree.py"
+
+    def bt_obj(S, d):
+        from swcgeom.core.branch_tree import BranchTree
+
+        return S.obj(BranchTree, branches=d)
+
+    def onb_setup(S):
+        d = S.pdict("ref", name="branches")
+        return dict(self=bt_obj(S, d), idx=S.int("idx"))
+
+    def onb_has(E, v, o):
+        return sel(o["self"].fields["branches"].dom, to_z3(o["idx"], "int"))
+
+    def onb_post(which):
+        def f(E, v, o):
+            d0, d1 = o["self"].fields["branches"], v["self"].fields["branches"]
+            if which == "registry-untouched":
+                return d1 is v["self"].fields["branches"] and d1.uid == d0.uid and z3.And(d1.dom == d0.dom, d1.val == d0.val)
+            if not (isinstance(v["result"], Sym) and v["result"].kind in ("ref", "oref", "int")):
+                return False
+            return to_z3(v["result"], "ref") == sel(d0.val, to_z3(o["idx"], "int"))
+
+        return f
+
+    R.add(f"{BT}:BranchTree.get_origin_node_branches", prop="C08", setup=onb_setup,
+          raises={"KeyError": ("only-when-no-branch-starts-at-the-node", lambda E, v, o: z3.Not(onb_has(E, v, o)))},
+          ensures=[("the-entry-registered-under-the-node", onb_post("entry")), ("registered-node-only", lambda E, v, o: onb_has(E, v, o)), ("registry-untouched", onb_post("registry-untouched"))],
+          options=dict(OPTS))
+
+    def ob_setup(k):
+        def f(S):
+            from pyvc.values import PDict
+
+            items = {}
+            for j in range(k):
+                l = S.plist("ref", name=f"at{j}")
+                l.frozen = True
+                items[10 + 3 * j] = l
+            d = PDict(items)
+            d.frozen = True
+            return dict(self=bt_obj(S, d))
+
+        return f
+
+    def ob_post(which):
+        def f(E, v, o):
+            res, lists = v["result"], list(o["self"].fields["branches"].items.values())
+            if not isinstance(res, PList):
+                return False
+            if which == "fresh-list":
+                return res.uid not in E.entry_uids
+            i = z3.Int(fresh_name("i"))
+            parts, off = [], z3.IntVal(0)
+            for c in lists:
+                L = X.ilen(c)
+                parts.append(z3.Implies(z3.And(off <= i, i < off + L), X.iat(res, i, "ref") == X.iat(c, i - off, "ref")))
+                off = off + L
+            return z3.And(X.ilen(res) == off, z3.ForAll([i], z3.And(*parts)) if parts else z3.BoolVal(True))
+
+        return f
+
+    R.add(f"{BT}:BranchTree.get_origin_branches", prop="C08",
+          variants={f"{k} start nodes": ob_setup(k) for k in (0, 1, 2, 3)},
+          ensures=[("the-registered-branches-of-every-start-node-in-registration-order", ob_post("content")), ("fresh-list", ob_post("fresh-list"))],
+          notes="the number of start nodes is fixed per variant (0-3); the number of branches per start node is symbolic; the registry and its lists are frozen", options=dict(OPTS))
+
+
+def _fresh_frozen_ints(E):
+    n = z3.Int(fresh_name("pre_len"))
+    E.assume(n >= 0)
+    return X.frozen_ints(z3.Const(fresh_name("pre"), X.AII), n, "pre_path")
+
+
+def _fresh_lll(E, K):
+    a = X.LLList.fresh(E, K, "kidpaths")
+    return a, a.get
+
+
+def register(R):  # noqa: F811
+    _reg8(R)
+    register_whole(R)
